@@ -11,6 +11,19 @@ sexp sexp_mutex_unlock (sexp ctx, sexp self, sexp_sint_t n, sexp mutex, sexp con
 sexp sexp_condition_variable_signal (sexp ctx, sexp self, sexp_sint_t n, sexp condvar);
 sexp sexp_condition_variable_broadcast (sexp ctx, sexp self, sexp_sint_t n, sexp condvar);
 sexp sexp_thread_start (sexp ctx, sexp self, sexp_sint_t n, sexp thread);
+sexp sexp_scheduler (sexp ctx, sexp self, sexp_sint_t n, sexp root_thread);
+#if OP == 6
+#include <sys/time.h>
+/* the clock is an arbitrary instant (one reading per scheduler step is all the step uses for wake-ups) */
+static struct timeval now_tv; static int now_set;
+int gettimeofday(struct timeval *tv, void *tz) {
+  if (!now_set) { now_set = 1; now_tv.tv_sec = nondet_sword(); now_tv.tv_usec = nondet_sword();
+    __CPROVER_assume(now_tv.tv_sec > 0 && now_tv.tv_sec < (1L << 40) && now_tv.tv_usec >= 0 && now_tv.tv_usec < 1000000); }
+  if (tv) *tv = now_tv;
+  return 0;
+}
+int usleep(unsigned usec) { return 0; }
+#endif
 KIT_C_END
 
 #define mutex_lockp(x)  sexp_slot_ref(x, 3)
@@ -25,6 +38,7 @@ static sexp mk_thread(sexp ctx) {
 }
 static int list_len(sexp ls) { int n = 0; for (int k = 0; k < 6; k++) { if (!sexp_pairp(ls)) break; n++; ls = sexp_cdr(ls); } return n; }
 static int memq(sexp ls, sexp x) { for (int k = 0; k < 6; k++) { if (!sexp_pairp(ls)) break; if (sexp_car(ls) == x) return 1; ls = sexp_cdr(ls); } return 0; }
+static int count(sexp ls, sexp x) { int n = 0; for (int k = 0; k < 6; k++) { if (!sexp_pairp(ls)) break; if (sexp_car(ls) == x) n++; ls = sexp_cdr(ls); } return n; }
 static sexp last_pair(sexp ls) { sexp l = ls; for (int k = 0; k < 6; k++) { if (!sexp_pairp(l) || !sexp_pairp(sexp_cdr(l))) break; l = sexp_cdr(l); } return l; }
 
 void harness(void) {
@@ -104,6 +118,52 @@ void harness(void) {
   KIT_ASSERT(r == SEXP_FALSE && mutex_lockp(M) == SEXP_FALSE, "the mutex is released");
   KIT_ASSERT(sexp_context_waitp(ctx) && sexp_context_event(ctx) == C && memq(p, ctx), "the caller is waiting on the condition variable when the primitive returns");
   KIT_ASSERT(list_len(p) == NPAUSED + 1 - ((locked && m_waiters > 0) ? 1 : 0), "one waiter of the mutex (if any) was woken, the caller was added");
+#elif OP == 6  /* one scheduler step */
+  /* re-shape the state: T1/T2 paused, each either joining the current thread or waiting on M; each with a
+     free wake-up time (0 = none), ordered as sexp_insert_timed keeps them; the current thread is running
+     (not waiting) and has terminated (refuel <= 0) or not, per query */
+  _Bool t1_joins = nondet_bool(), t2_joins = nondet_bool();
+  sexp_context_event(T1) = t1_joins ? ctx : M; sexp_context_event(T2) = t2_joins ? ctx : M;
+  long s1 = nondet_sword(), u1 = nondet_sword(), s2 = nondet_sword(), u2 = nondet_sword();
+  __CPROVER_assume(s1 >= 0 && s1 < (1L << 40) && u1 >= 0 && u1 < 1000000 && s2 >= 0 && s2 < (1L << 40) && u2 >= 0 && u2 < 1000000);
+  __CPROVER_assume(s1 != 0 || u1 == 0);  __CPROVER_assume(s2 != 0 || u2 == 0);       /* a wake-up time has non-zero seconds */
+#if NPAUSED == 2
+  __CPROVER_assume(s1 != 0 || s2 == 0);                                                /* timed waiters come first ... */
+  __CPROVER_assume(s2 == 0 || s1 < s2 || (s1 == s2 && u1 <= u2));                     /* ... in time order */
+#endif
+  sexp_context_timeval(T1).tv_sec = s1; sexp_context_timeval(T1).tv_usec = u1;
+  sexp_context_timeval(T2).tv_sec = s2; sexp_context_timeval(T2).tv_usec = u2;
+  sexp_context_refuel(ctx) = TERMINATED ? 0 : 100;
+  sexp_context_waitp(ctx) = 0;
+  sexp_global(ctx, SEXP_G_THREADS_SIGNALS) = SEXP_ZERO;
+  sexp_global(ctx, SEXP_G_THREADS_POLL_FDS) = SEXP_FALSE;
+  sexp_global(ctx, SEXP_G_THREADS_POLLFDS_ID) = sexp_make_fixnum(SEXP_NUM_CORE_TYPES + 5);
+  sexp res = sexp_scheduler(ctx, SEXP_FALSE, 1, SEXP_FALSE);
+  sexp p = sexp_global(ctx, SEXP_G_THREADS_PAUSED), f = sexp_global(ctx, SEXP_G_THREADS_FRONT), b = sexp_global(ctx, SEXP_G_THREADS_BACK);
+  KIT_ASSERT(sexp_contextp(res), "the scheduler returns a thread");
+  KIT_ASSERT(!sexp_context_waitp(res), "the thread chosen to run is not blocked");
+  KIT_ASSERT(list_len(f) == 0 ? !sexp_pairp(b) : b == last_pair(f), "BACK is the last cell of the run queue (or both are empty)");
+  KIT_ASSERT(list_len(p) <= NPAUSED && list_len(f) <= NPAUSED + 2, "the queues stay finite");
+  /* nobody is lost or duplicated */
+  sexp th[3] = {T1, T2, T3}; int was[3] = {t1w, t2w, queue_nonempty};
+  for (int i = 0; i < 3; i++) {
+    int places = count(p, th[i]) + count(f, th[i]) + (res == th[i]);
+    KIT_ASSERT(places == (was[i] ? 1 : 0), "every thread is afterwards in exactly one place: paused list, run queue, or running");
+  }
+  if (TERMINATED) KIT_ASSERT(!memq(f, ctx) && !memq(p, ctx), "a terminated thread is not queued again");
+  else KIT_ASSERT(res == ctx ? (!memq(f, ctx) && !memq(p, ctx)) : (count(f, ctx) == 1 && sexp_car(b) == ctx && !memq(p, ctx)),
+                  "a pre-empted thread goes to the back of the run queue exactly once (round robin)");
+  /* wake-ups that are due happen in this step */
+  int woke1 = 0, woke2 = 0;
+  if (t1w) { woke1 = (TERMINATED && t1_joins) || (s1 != 0 && (s1 < now_tv.tv_sec || (s1 == now_tv.tv_sec && u1 < now_tv.tv_usec))); }
+  if (t2w) { woke2 = (TERMINATED && t2_joins) || (s2 != 0 && (s2 < now_tv.tv_sec || (s2 == now_tv.tv_sec && u2 < now_tv.tv_usec))); }
+  if (t1w && woke1) KIT_ASSERT(!memq(p, T1) && !sexp_context_waitp(T1), "a thread whose join target has terminated / whose timeout has passed is made runnable (no lost wake-up)");
+  if (t2w && woke2) KIT_ASSERT(!memq(p, T2) && !sexp_context_waitp(T2), "a thread whose join target has terminated / whose timeout has passed is made runnable (no lost wake-up)");
+  /* the next thread is the oldest runnable one */
+  if (queue_nonempty) KIT_ASSERT(res == T3, "the thread at the front of the run queue runs next");
+  else if ((t1w && woke1) || (t2w && woke2))      /* (joiners are queued before timed-out threads: the order among them is not prescribed) */
+    KIT_ASSERT((res == T1 && t1w && woke1) || (res == T2 && t2w && woke2), "with an empty run queue a thread woken in this step runs next");
+  else KIT_ASSERT(res == ctx, "with nothing else runnable the current thread continues");
 #elif OP == 5  /* thread-start! */
   sexp T4 = mk_thread(ctx);
   sexp r = sexp_thread_start(ctx, SEXP_FALSE, 1, T4);
